@@ -81,6 +81,13 @@ Sensitivity (first 12000 indices of the quick tier, mutants applied to a scratch
        by it + pending-cancellation drain removed: needs abort() executed by the
        simulation task with nothing raised (kinds ctrl_abort_sim, ofunc_abort_sim,
        handler_caught_sim); clause not-terminated / not-terminated-by-itself
+  s6   (seeded C09-s6) the pending-cancellation drain only after a caught error:   c
+       needs abort() by the simulation task during the synchronous initialisation with
+       nothing raised (kinds init_abort, init_ctrl_abort, init_ofunc_abort) + a stop_async
+       block; run_forever ends as cancelled although Circuit.error holds the error
+  C05-s4 early-init failure not aborted inside the simulation task: needs an       c
+       internal event whose sender swallows the exception (kind init_early_int: relay /
+       AddonPersistence restore path)
   MB   run(): raw simtask.cancel() instead of abort(CancelledError) when a         c
        supporting task exits (needs: error first, supporting task exits during clean-up)
   MC   abort(): cancels the simulation task again although an error is set         c
@@ -109,14 +116,17 @@ RULE = ("one run = fixed probe circuit x entry point (run_forever task + shutdow
         "on_error=Event.abort(), abort() executed by the simulator task itself with nothing "
         "raised ('_ctrl' abort event on a CBlock's on_output, OutputFunc with "
         "on_error=Event.abort() fed by a CBlock, handler error caught by a sender running in "
-        "the simulator task), init routine failing in an early initialisation forced by an "
+        "the simulator task), the same during the synchronous initialisation (abort() in an "
+        "init routine, '_ctrl' abort event / failing OutputFunc on a block's initial output), "
+        "init routine failing in an early initialisation forced by an internal event whose "
+        "sender swallows the exception (relay / AddonPersistence restore), init routine failing in an early initialisation forced by an "
         "external event, calc_output error, abort() followed by a raise, failing main task (raise / "
         "return), failing ValuePoll.func, abort(exc), '_ctrl' abort event, '_ctrl' shutdown "
         "event, shutdown(), raw cancel of the simulation task / of run(), failing or returning "
         "supporting task, SIGTERM, failing init_regular/init_from_value) at planned instants "
         "(same instant with equal / different call_soon hops, +1 ms, during async init, during "
         "clean-up, at the end of clean-up, before start, before the first step) x non-fatal "
-        "sources x loop knobs (tie order, latency, cost, hash salt); the first N_SYS (about 4700) run indices walk "
+        "sources x loop knobs (tie order, latency, cost, hash salt); the first N_SYS (about 6000) run indices walk "
         "entry x (single kind x phase, unordered pair of kinds x 7 timing patterns, for run(): "
         "fatal kind x shutdown() in a supporting coroutine x exiting supporting coroutine x 3 "
         "patterns) systematically, the rest is sampled incl. triples; non-trivial = at least one planned "
@@ -133,7 +143,8 @@ REACH_EXPECTED = ['two_deliveries_same_instant', 'tie_order_reversed', 'later_er
                   'shutdown_returned', 'shutdown_during_cleanup', 'run_returned_none',
                   'three_sources_fired', 'error_in_cleanup_ignored',
                   'shutdown_awaiter_cancelled', 'init_error_in_early_init',
-                  'abort_inside_simtask_nothing_raised']
+                  'abort_inside_simtask_nothing_raised', 'abort_during_sync_init_nothing_raised',
+                  'init_error_swallowed_by_sender']
 ASSUMPTIONS = [
     "delivery order = order of the records written at the fault sites and by the pass-through "
     "wrapper of Circuit.abort for cancellations that edzed itself delivers (shutdown(), SIGTERM, "
@@ -148,7 +159,8 @@ ASSUMPTIONS = [
     "Task.cancel(): from the point the task ran again; during the initialisation phase: from "
     "the end of the entry point)",
     "injected init_regular/init_from_value faults fire in the simulator's own initialisation "
-    "pass, not in an early initialisation forced by an event",
+    "pass, in an early initialisation forced by an external event, and in one forced by an "
+    "internal event whose sender swallows the exception",
 ]
 
 T_LATE = 6.0
@@ -159,7 +171,13 @@ COMMON = ['handler', 'handler_caught', 'handler_relay', 'handler_cblock', 'calc'
           'task_raise', 'task_return', 'vpoll', 'abort', 'ctrl_abort', 'ctrl_shutdown',
           'shutdown', 'init', 'handler_init', 'init_early', 'ofunc_abort', 'oasync_abort',
           # abort() executed BY the simulation task without any exception reaching it:
-          'ctrl_abort_sim', 'ofunc_abort_sim', 'handler_caught_sim']
+          'ctrl_abort_sim', 'ofunc_abort_sim', 'handler_caught_sim',
+          # the same during the synchronous initialisation (nothing raised to the simulator),
+          # and an init routine failing in an early initialisation forced by an INTERNAL
+          # event whose sender swallows the exception:
+          'init_abort', 'init_ctrl_abort', 'init_ofunc_abort', 'init_early_int']
+INIT_KINDS = ('init', 'handler_init', 'init_abort', 'init_ctrl_abort', 'init_ofunc_abort',
+              'init_early_int')
 SIM_CODES = {'ctrl_abort_sim': 'XA', 'ofunc_abort_sim': 'OS', 'handler_caught_sim': 'HS'}
 KINDS = {'rf': COMMON + ['cancel'],
          'run': COMMON + ['sup_raise', 'sup_return', 'sup_shutdown', 'sigterm', 'cancel_run'],
@@ -169,7 +187,8 @@ PHASES = ['running', 'init', 'first']
 NONFATAL = ['unknown', 'missing', 'extra']
 WRAPPED = ('handler', 'handler_caught', 'handler_relay', 'handler_cblock', 'handler_stop',
            'handler_init', 'ctrl_abort', 'ofunc_abort', 'oasync_abort',
-           'ctrl_abort_sim', 'ofunc_abort_sim', 'handler_caught_sim')
+           'ctrl_abort_sim', 'ofunc_abort_sim', 'handler_caught_sim',
+           'init_ctrl_abort', 'init_ofunc_abort')
 SUP_KINDS = ('sup_raise', 'sup_return', 'sup_shutdown')
 _NR = len(KINDS['run'])
 N_SYS = 2 * (_NR * len(PHASES) + _NR * (_NR - 1) // 2 * len(PATTERNS) + len(COMMON) * 2 * 3)
@@ -195,6 +214,9 @@ def _mk_source(rng, kind, t, hops):
         s['doc'] = rng.random() < 0.5
     elif kind == 'init':
         s['ifv'] = rng.random() < 0.4
+    elif kind == 'init_early_int':
+        s['via'] = rng.choice(['relay', 'restore'])
+        s['after_output'] = rng.random() < 0.6
     elif kind == 'init_early':
         s['after_output'] = rng.random() < 0.5
     return s
@@ -205,7 +227,8 @@ def _finish(rng, entry, sources, *, d_init, d_stop, pre=(), systematic=False):
     seen_once = set()
     out = []
     for s in sources:
-        if s['kind'] in ('init', 'handler_init', 'init_early', 'vpoll', 'cancel', 'cancel_run'):
+        if s['kind'] in INIT_KINDS or s['kind'] in ('init_early', 'vpoll', 'cancel',
+                                                    'cancel_run'):
             if s['kind'] in seen_once:
                 continue
             seen_once.add(s['kind'])
@@ -279,7 +302,7 @@ def _gen_systematic(rng, index):
             return None
         x, y = triples[k % len(triples)]
         pat = k // len(triples)
-        base = 0.25 if x == 'init_early' else (d_init if x in ('init', 'handler_init') else 2.0)
+        base = 0.25 if x == 'init_early' else (d_init if x in INIT_KINDS else 2.0)
         if pat == 0:
             spec = [(x, base, 0), ('sup_shutdown', base, 0), (y, base, 0)]
         elif pat == 1:
@@ -291,7 +314,7 @@ def _gen_systematic(rng, index):
     a, b = pairs[k % len(pairs)]
     pat = PATTERNS[k // len(pairs)]
     base = 2.0
-    if 'init' in (a, b) or 'handler_init' in (a, b):
+    if a in INIT_KINDS or b in INIT_KINDS:
         base = d_init           # the init fault fires when the async initialisation is over
     if pat == 'init_phase' or 'init_early' in (a, b):
         base = 0.25             # (an early initialisation needs the async init phase)
@@ -495,6 +518,60 @@ class PInitEarly(edzed.SBlock):
         self.set_output(value)
 
 
+class PInitAbort(edzed.SBlock):
+    """init_regular reports an error with abort() and returns normally."""
+
+    def init_regular(self):
+        ctx = self.x_ctx
+        ctx.circuit.abort(ctx.fatal_rec('init_abort', self.x_tag))
+        self.set_output(0)
+
+
+class PInitOut(edzed.SBlock):
+    """Its initial output (x_value) feeds an abort path through on_output."""
+
+    def init_regular(self):
+        self.set_output(self.x_value)
+
+
+class PInitDest(edzed.SBlock):
+    """init_regular fails; an internal event makes event() run it early."""
+
+    def init_regular(self):
+        if self.x_after:
+            self.set_output('set-before-the-error')
+        self.x_ctx.fatal_site('init_early_int', self.x_tag)
+
+    def _event_put(self, *, value, **_data):
+        self.set_output(value)
+
+
+class PInitSender(edzed.SBlock):
+    """init_regular sends an event and swallows whatever comes back."""
+
+    def init_regular(self):
+        try:
+            self.x_ev.send(self, value=1)
+        except Injected:
+            self.x_ctx.run.fired('reach:init_error_swallowed_by_sender')
+        self.set_output(0)
+
+
+class PRestoreSender(edzed.AddonPersistence, edzed.SBlock):
+    """
+    Restoring the state sets the output, the output event goes to the failing block; the
+    exception comes back into AddonPersistence's restore code, which only logs it.
+    """
+
+    def _restore_state(self, state, /):
+        self.x_ctx.run.fired('reach:init_error_swallowed_by_sender')
+        self.set_output(state)
+
+    def init_regular(self):
+        if not self.is_initialized():
+            self.set_output('regular')
+
+
 class PInitV(edzed.SBlock):
     def init_from_value(self, value):
         self.x_ctx.fatal_site('init', self.x_tag)
@@ -567,6 +644,7 @@ class Ctx:
         self.ended = False
         self.harness_fail = None
         self.plan_error = None
+        self.need_storage = False
         self.creq_n = 0
         self.awaiter_cancelled = False  # run() cancelled a supporting task inside shutdown()
         self.as_str = {}            # tag -> the '_ctrl' abort event carried a message only
@@ -639,6 +717,9 @@ class Ctx:
     def matches(self, err, tag):
         kind = self.kind_of[tag]
         exc = self.exc[tag]
+        if kind == 'init_early_int':
+            # (as for the early initialisation by an external event: raw or wrapped)
+            return err is exc or getattr(err, '__cause__', None) is exc
         if kind == 'ctrl_abort' and self.as_str.get(tag):
             # the error was given as a message: there is no original exception to chain
             return isinstance(err, edzed.EdzedCircuitError) and err.__cause__ is None
@@ -713,7 +794,40 @@ def build(ctx, plan, storage):
             storage[blk.key] = 'stored'
         for s in plan['sources']:
             kind, tag = s['kind'], s['tag']
-            if kind == 'init':
+            if kind == 'init_abort':
+                blocks[f"pab{tag}"] = PInitAbort(f"pab{tag}", x_ctx=ctx, x_tag=tag)
+            elif kind == 'init_ctrl_abort':
+                def init_ctrl_filter(data, tag=tag):
+                    value = data.get('value')
+                    if isinstance(value, (list, tuple)) and value and value[0] == 'IA':
+                        data['error'] = ctx.fatal_rec('init_ctrl_abort', tag)
+                        return data
+                    return False
+                blocks[f"pio{tag}"] = PInitOut(
+                    f"pio{tag}", x_value=['IA', tag],
+                    on_output=edzed.Event('_ctrl', 'abort', efilter=init_ctrl_filter))
+            elif kind == 'init_ofunc_abort':
+                def ofunc_init(value, tag=tag):
+                    if isinstance(value, (list, tuple)) and value and value[0] == 'IO':
+                        ctx.fatal_site('init_ofunc_abort', tag)
+                    return value
+                blocks[f"pio{tag}"] = PInitOut(
+                    f"pio{tag}", x_value=['IO', tag], on_output=edzed.Event(f"ofi{tag}", 'put'))
+                blocks[f"ofi{tag}"] = edzed.OutputFunc(
+                    f"ofi{tag}", func=ofunc_init, on_error=edzed.Event.abort())
+            elif kind == 'init_early_int':
+                if 'pid' in blocks:
+                    raise PlanError('two init_early_int faults')
+                if s.get('via') == 'restore':
+                    blk = blocks['prs'] = PRestoreSender(
+                        'prs', x_ctx=ctx, persistent=True, on_output=edzed.Event('pid', 'put'))
+                    storage[blk.key] = 'stored'
+                    ctx.need_storage = True
+                else:
+                    blocks['pse'] = PInitSender('pse', x_ctx=ctx, x_ev=edzed.Event('pid', 'put'))
+                blocks['pid'] = PInitDest('pid', x_ctx=ctx, x_tag=tag,
+                                          x_after=bool(s.get('after_output')))
+            elif kind == 'init':
                 if 'pi' in blocks:
                     raise PlanError('two init faults')
                 if s.get('ifv'):
@@ -810,7 +924,7 @@ def execute(plan, trace=False):
         blocks = build(ctx, plan, storage)
         circuit = edzed.get_circuit()
         ctx.circuit = circuit
-        if plan.get('persist'):
+        if plan.get('persist') or ctx.need_storage:
             circuit.set_persistent_data(storage)
         orig_abort = circuit.abort
 
@@ -915,7 +1029,7 @@ def execute(plan, trace=False):
                 res = ext('pie', 'put', value=1)
                 run.log('op-result', kind, res[0],
                         ctx.classify(res[1]) if res[0] == 'exc' else None)
-            elif kind in ('vpoll', 'init', 'handler_init'):
+            elif kind == 'vpoll' or kind in INIT_KINDS:
                 pass        # fire on their own
             elif kind == 'abort':
                 circuit.abort(ctx.fatal_rec('abort', tag))
@@ -1426,6 +1540,9 @@ def judge(run, ctx, plan, info):
                 run.fired('reach:shutdown_during_cleanup')
     if any(e['k'] == 'early' for e in D):
         run.fired('reach:init_error_in_early_init')
+    if any(e['k'] == 'fatal' and e['kind'] in ('init_abort', 'init_ctrl_abort', 'init_ofunc_abort')
+           for e in D):
+        run.fired('reach:abort_during_sync_init_nothing_raised')
     if any(e['k'] == 'fatal' and e['kind'] in SIM_CODES for e in D):
         run.fired('reach:abort_inside_simtask_nothing_raised')
     if any(e['k'] == 'fatal' and e['kind'] == 'handler_cblock' for e in D):
